@@ -568,6 +568,6 @@ fn main() {
     );
     check.assume("a process crash leaves exactly the RocksDB writes issued so far (WAL in the page cache survives a process crash; power loss is not modelled)");
     check.assume("state_machine::apply_command (judged by C35) defines the state of a command sequence");
-    check.explore("crash_restart", case, 200, 3000, run_case);
+    check.explore("crash_restart", case, 120, 3000, run_case);
     check.finish();
 }
